@@ -2,7 +2,7 @@
 import ast
 import z3
 from . import ops
-from .values import (Sym, SBool, SInt, SExt, SReal, SObj, SOpaque, BoundMethod, PyRaise, NeedFork, Unsupported,
+from .values import (Sym, SBool, SInt, SExt, SReal, SObj, SOpaque, BoundMethod, PyRaise, NeedFork, Unsupported, Lazy,
                      merge, zbool, zint, is_intlike)
 from .ops import ClassRef, ExcInstance, Builtin
 
@@ -306,7 +306,10 @@ class SuperProxy(Sym):
             if key in self.selfobj.methods:
                 return BoundMethod(self.selfobj, self.selfobj.methods[key], key)
             if key in self.selfobj.attrs:
-                return self.selfobj.attrs[key]
+                v = self.selfobj.attrs[key]
+                if isinstance(v, Lazy):  # computed on first use, like SObj.getattr
+                    v = self.selfobj.attrs[key] = v.force(ctx)
+                return v
         raise Unsupported('%s is not modelled for %r' % (key, self.selfobj))
 
 
